@@ -51,6 +51,13 @@ class CsgScatterer(Scatterer):
     def bounds(self):
         return [(min(b1[0], b2[0]), max(b1[1], b2[1])) for b1, b2 in zip(self.s1.bounds, self.s2.bounds)]
 
+    def translated(self, coord1, coord2=None, coord3=None):
+        # the region is defined by the components: move them (the inherited
+        # method would only relabel the center)
+        s1, s2 = [s.translated(coord1, coord2, coord3)
+                  for s in (self.s1, self.s2)]
+        return self.__class__(s1, s2)
+
     def rotated(self, alpha, beta, gamma):
         centers = np.array([s.center for s in (self.s1, self.s2)])
         new_centers = self.center + rotate_points(centers - self.center, alpha, beta, gamma)
